@@ -26,6 +26,8 @@ CHECKS = {
                 tech="z3-term symbolic execution of fuse/unfuse (both strategies, cache on/off) + CrossHair on calc_fuse_group_info/accum_for_split", ref="§4 C05", engine="B+A"),
     "C08": dict(text=B + " Each operation through every call route; an operation may raise (all routes alike) but never return another value.", note=NOTE_B,
                 tech="z3-term symbolic execution of each op vs the op on the densified operand; path controller for abs/min/max/clip", ref="§4 C08", engine="B"),
+    "C09": dict(text=B + " Relational inductive step: every operation on an array with an arbitrary pending-sign table and on its hand-synchronised twin (same variables) must give equal values; phase_sync is idempotent and value-preserving.", note=NOTE_B + " Raw-storage accessors are excluded (their meaning is the stored representation).",
+                tech="z3-term relational symbolic execution (lazy vs synchronised twin) of every fermionic op", ref="§4 C09", engine="B"),
     "C10": dict(text=B + " Complex entries as pairs of real terms; norm identities for conj/dagger in both operand orders and both option values; adjoint laws; doubled 2-3 tensor networks along sampled routes against the independent graded value of the ket network.", note=NOTE_B + " Involution is claimed for default options only; 3-tensor networks use real entries.",
                 tech="z3-term symbolic execution (complex) of conj/dagger/tensordot norm identities and doubled networks vs graded oracle", ref="§4 C10", engine="B"),
     "C16": dict(text=B + " All constructors with every documented combination of omitted arguments must agree; arbitrary dense arrays (all entries distinct variables) under arbitrary labelings must round-trip to their projection.", note=NOTE_B,
